@@ -11,6 +11,9 @@ TEMPLATES = [
     ['if', 'a', 'NL', 'foreach', 'x', ':', 'a', 'NL', 'endforeach', 'NL', 'endif'],
     ['if', 'a', 'NL', 'if', 'b', 'NL', 'endif', 'NL', 'else', 'NL', 'endif'],
     ['a', '=', 'f', '(', "'''m\nn'''", ',', "f'x'", ')'],
+    # the two-word operator `not in` with trivia between the words (continuation; newline and comment inside brackets)
+    ['x', '=', 'a', 'not', 'in', 'b'], ['f', '(', 'a', 'not', 'in', 'b', ')'], ['f', '(', 'a', 'not', '\n', 'in', 'b', ')'], ['y', '=', '[', 'a', 'not', '#c\n', ' ', 'in', 'b', ']'],
+    ['if', 'a', 'not', 'in', 'b', 'and', 'not', 'c', 'NL', 'endif'],
     # escape sequences in every kind of string literal (the printer must reproduce the SOURCE spelling)
     ['a', '=', "f'it\\'s @x@'"], ['a', '=', "'q\\\\n\\t\\''"], ['a', '=', "f'a\\tb\\\\c\\x41'"], ['f', '(', "f'''m\\t\nn'''", ',', "'''r\\'s'''", ')'],
     ['a', '=', "'\\d\\N{DIGIT ONE}\\101'"], ['a', '=', "f'@x@\\n'", '+', "'\\u00e9'"], ['testcase', 'expect_error', '(', "'s'", ')', 'NL', 'endtestcase'],
